@@ -17,7 +17,27 @@ class Script:
             return self.events.pop(0)
         return None
 
-class FakePort:
+class PortExtras:
+    """the rest of pyserial's Serial interface, as harmless no-ops / plausible constants: code under test may legitimately call any of it
+    (flushing, buffer resets, open-state and timeout attributes); only write / readline / close carry meaning for the properties"""
+    is_open = True; timeout = 1.0; write_timeout = None; baudrate = 9600; in_waiting = 0; out_waiting = 0; name = "/dev/ttyACM0"
+    def flush(self): pass
+    def reset_input_buffer(self): pass
+    def reset_output_buffer(self): pass
+    def flushInput(self): pass
+    def flushOutput(self): pass
+    def isOpen(self): return True
+    def inWaiting(self): return 0
+    def cancel_read(self): pass
+    def cancel_write(self): pass
+    def open(self): pass
+    def readable(self): return True
+    def writable(self): return True
+    def __enter__(self): return self
+    def __exit__(self, *a): self.close(); return False
+
+
+class FakePort(PortExtras):
     """write / readline consume one script event each; ('L', text) = that line, 'E' = nothing arrives / write ok, 'F' = SerialException"""
     port = "/dev/ttyACM0"          # pyserial's Serial objects carry their device name; every fake board here sits on the same one
     def __init__(self, script, close_raises=False):
@@ -76,7 +96,7 @@ class FakePort:
 def install(script, ports, close_raises=False):
     """rebind comports and serial.Serial as seen by ebb3_serial; returns the shared FakePort"""
     fp = FakePort(script, close_raises)
-    def fake_serial(name, timeout=None):
+    def fake_serial(name=None, *args, **kwargs):          # whatever further arguments the code opens the port with (timeouts, baud rate)
         ev = script.next()
         if ev == "F":
             raise serial.SerialException("injected fault on open")
